@@ -265,7 +265,9 @@ func mutate(r *rand.Rand, method string, enc []byte, mut string, tier string) []
 			b = append(b, deepGroups(depth, r.Intn(2) == 0)...)
 		}
 	case "bad-varint-or-length":
-		switch r.Intn(5) {
+		switch r.Intn(6) {
+		case 5: // the largest int64 where a limit / flag lives
+			b = appUint(b, 4, 1<<63-1)
 		case 0: // varint that never ends
 			b = append(appTag(b, 4, wtVarint), 0xff, 0xff, 0xff, 0xff, 0xff, 0xff, 0xff, 0xff, 0xff, 0xff, 0xff, 0x01)
 		case 1: // length far beyond the buffer
